@@ -564,9 +564,12 @@ func add(m Mismatch) {
 	gMu.Lock()
 	defer gMu.Unlock()
 	gStats["mismatch_"+m.Kind]++
-	k := m.Kind + "/" + m.PatID + "/" + m.Stage
-	if gPerKey[k] < 3 && len(gMis) < 400 {
+	// a diverse sample: at most 2 per (kind, pattern, stage, package), 150 per (kind, stage)
+	k := m.Kind + "/" + m.PatID + "/" + m.Stage + "/" + m.Pkg
+	ks := m.Kind + "//" + m.Stage
+	if gPerKey[k] < 2 && gPerKey[ks] < 150 {
 		gPerKey[k]++
+		gPerKey[ks]++
 		gMis = append(gMis, m)
 	}
 }
